@@ -5,6 +5,7 @@ import (
 	"go/constant"
 	"go/token"
 	"go/types"
+	"strings"
 
 	"golang.org/x/tools/go/ssa"
 )
@@ -258,12 +259,109 @@ func (fr *Frame) storeTo(st *State, addr ssa.Value, t types.Type, v Value, pos t
 	p := a.(*Term)
 	fr.vc.check(st, "nil", "store:"+fr.label(addr), Not(Eq(p, TNil)), pos)
 	fr.frameCheck(st, p, t, fr.label(addr), pos)
+	if messageValueType(t) && messageStore(addr) {
+		// ghost version counter of the XML message objects: serialisations taken at the same version are equal
+		st.Ghost["msgver"] = Add(st.ghost(fr.vc, "msgver"), IntLit(1))
+	}
 	st.store(p, t, v)
+}
+
+// messageValueType: can a value of type t be (part of) the content of an XML message struct? Those hold strings,
+// xml.Name, and pointers / slices / structs of the message packages; never interfaces, functions, maps or foreign types.
+func messageValueType(t types.Type) bool {
+	for {
+		switch u := t.(type) {
+		case *types.Pointer:
+			t = u.Elem()
+			continue
+		case *types.Slice:
+			t = u.Elem()
+			continue
+		case *types.Array:
+			t = u.Elem()
+			continue
+		}
+		break
+	}
+	if n, ok := t.(*types.Named); ok && n.Obj().Pkg() != nil {
+		path := n.Obj().Pkg().Path()
+		if strings.HasPrefix(path, modulePrefix) {
+			return strings.Contains(path, "/pkg/provider/xml")
+		}
+		return path == "encoding/xml"
+	}
+	switch t.Underlying().(type) {
+	case *types.Interface, *types.Signature, *types.Map, *types.Chan:
+		return false
+	}
+	return true
+}
+
+// messageStore: may a store through addr change the content of an XML message tree (types of pkg/provider/xml/...)?
+// Stores into objects of other module types (provider.Response, checker.Checker, ...), into captured variables and
+// into globals cannot; everything else (message structs, slice elements, pointers of unknown origin) is assumed to.
+func messageStore(addr ssa.Value) bool {
+	isMsgType := func(t types.Type) bool {
+		for {
+			if p, ok := t.Underlying().(*types.Pointer); ok {
+				t = p.Elem()
+				continue
+			}
+			break
+		}
+		if n, ok := t.(*types.Named); ok && n.Obj().Pkg() != nil {
+			path := n.Obj().Pkg().Path()
+			if strings.HasPrefix(path, modulePrefix) {
+				return strings.Contains(path, "/pkg/provider/xml")
+			}
+			return false // library types (bytes.Buffer, url.URL, ...) are not part of message trees
+		}
+		return true // basic types, unnamed composites: unknown container
+	}
+	switch x := addr.(type) {
+	case *ssa.FieldAddr:
+		return isMsgType(x.X.Type())
+	case *ssa.IndexAddr:
+		switch u := x.X.Type().Underlying().(type) {
+		case *types.Slice:
+			return isMsgType(u.Elem())
+		case *types.Pointer:
+			if at, ok := u.Elem().Underlying().(*types.Array); ok {
+				return isMsgType(at.Elem())
+			}
+		}
+		return true
+	case *ssa.Alloc:
+		// a variable cell: only a message when the variable itself is a message struct
+		et := x.Type().(*types.Pointer).Elem()
+		if _, isPtr := et.Underlying().(*types.Pointer); isPtr {
+			return false
+		}
+		if _, isNamed := et.(*types.Named); isNamed {
+			return isMsgType(et)
+		}
+		return false
+	case *ssa.Global, *ssa.FreeVar:
+		return false
+	}
+	if p, ok := addr.Type().Underlying().(*types.Pointer); ok {
+		if _, isPtr := p.Elem().Underlying().(*types.Pointer); isPtr {
+			return false
+		}
+		return isMsgType(p.Elem())
+	}
+	return true
 }
 
 func (fr *Frame) unop(x *ssa.UnOp, st *State) Value {
 	switch x.Op {
 	case token.MUL:
+		if g, ok := x.X.(*ssa.Global); ok {
+			// a package-level variable that nothing in the module assigns has its initial literal value
+			if c := fr.vc.prog.globalConst(g); c != nil {
+				return fr.vc.constValue(c)
+			}
+		}
 		a := fr.get(x.X)
 		if lp, ok := a.(LocalPtr); ok {
 			return getPath(st.Locals[lp.Cell], lp.Path)
